@@ -11,7 +11,7 @@ for line in m.group(1).splitlines():
         old[c[0]] = line
 for sd in sorted(glob.glob('/verif/seeded/C*')):
     sid = os.path.basename(sd)
-    if sid in old and not os.environ.get('REBUILD_ALL'):
+    if sid in old and not sid.endswith('-C') and not os.environ.get('REBUILD_ALL'):
         rows.append(old[sid]); continue
     meta = json.load(open(sd + '/meta.json'))
     ck = json.load(open(sd + '/checks.json')) if os.path.exists(sd + '/checks.json') else {"runs": [], "caught_by": []}
